@@ -103,8 +103,10 @@ theorem coh_tryAdd {cfg names s o n} (h : Coh names s) (hn : n ∈ names) :
 
 /-- One step preserves coherence. -/
 theorem coh_step (cfg : Cfg) (names : List String) (s : State) (op : Op)
-    (h : Coh names s) (hop : ∀ n ∈ op.names, n ∈ names) : Coh names (step cfg names s op).1 := by
+    (h : Coh names s) (hop : ∀ n ∈ op.names, n ∈ names) (hloc : op.local = true) :
+    Coh names (step cfg names s op).1 := by
   cases op with
+  | steal v k => simp [Op.local] at hloc
   | setattr key v =>
     cases v with
     | other => exact h
@@ -138,7 +140,8 @@ theorem coh_step (cfg : Cfg) (names : List String) (s : State) (op : Op)
 
 /-- Coherence holds after every finite operation sequence. -/
 theorem coh_run (cfg : Cfg) (names : List String) (ops : List Op) (s : State)
-    (h : Coh names s) (hops : ∀ op ∈ ops, ∀ n ∈ op.names, n ∈ names) :
+    (h : Coh names s) (hops : ∀ op ∈ ops, ∀ n ∈ op.names, n ∈ names)
+    (hloc : ∀ op ∈ ops, op.local = true) :
     Coh names (run cfg names s ops).1 := by
   induction ops generalizing s with
   | nil => exact h
@@ -146,8 +149,100 @@ theorem coh_run (cfg : Cfg) (names : List String) (ops : List Op) (s : State)
     unfold run
     simp only []
     apply ih
-    · exact coh_step cfg names s op h (hops op (by simp))
+    · exact coh_step cfg names s op h (hops op (by simp)) (hloc op (by simp))
     · intro op' hop'; exact hops op' (by simp [hop'])
+    · intro op' hop'; exact hloc op' (by simp [hop'])
+
+/-- The part of coherence that survives adoption of objects by *other* containers
+    (which rewrites their name and parent reference behind this container's back):
+    the views still agree with the namespace and no object is bound under two names. -/
+structure Coh' (names : List String) (s : State) : Prop where
+  views : ∀ n k, s.view k n = (match s.ns n with
+                               | some o => if k = o.kind then some o else none
+                               | none => none)
+  inj : ∀ n m o p, s.ns n = some o → s.ns m = some p → o.id = p.id → n = m
+  dom : ∀ n o, s.ns n = some o → n ∈ names
+
+theorem Coh.weaken {names s} (h : Coh names s) : Coh' names s :=
+  ⟨h.views, fun _ _ _ _ hn hm hid => h.injective hn hm hid, h.dom⟩
+
+theorem coh'_addCore {names s o n} (h : Coh' names s) (hn : n ∈ names)
+    (hal : aliased names s o n = false) : Coh' names (addCore s o n) := by
+  have hna := not_aliased hal
+  refine ⟨?_, ?_, ?_⟩
+  · intro m k
+    unfold addCore; simp only []
+    by_cases hm : m = n
+    · simp [hm]
+    · simp only [hm, if_false]; exact h.views m k
+  · intro a b x y ha hb hid
+    unfold addCore at ha hb; simp only [] at ha hb
+    by_cases h1 : a = n <;> by_cases h2 : b = n
+    · rw [h1, h2]
+    · simp only [h1, if_true] at ha; simp only [h2, if_false] at hb
+      have := hna b y (h.dom b y hb) h2 hb
+      rw [← Option.some.inj ha] at hid
+      exact absurd hid.symm this
+    · simp only [h1, if_false] at ha; simp only [h2, if_true] at hb
+      have := hna a x (h.dom a x ha) h1 ha
+      rw [← Option.some.inj hb] at hid
+      exact absurd hid this
+    · simp only [h1, if_false] at ha; simp only [h2, if_false] at hb
+      exact h.inj a b x y ha hb hid
+  · intro m p hp
+    unfold addCore at hp; simp only [] at hp
+    by_cases hm : m = n
+    · rw [hm]; exact hn
+    · simp only [hm, if_false] at hp; exact h.dom m p hp
+
+/-- Views/namespace agreement and one-name-per-object hold after **every** operation,
+    including adoption of held objects by other containers in between. -/
+theorem coh'_step (cfg : Cfg) (names : List String) (s : State) (op : Op)
+    (h : Coh' names s) (hop : ∀ n ∈ op.names, n ∈ names)
+    (hnamed : ∀ i n, s.nameOf i = some n → n ∈ names) : Coh' names (step cfg names s op).1 := by
+  have tryAdd' : ∀ o n, n ∈ names → Coh' names (tryAdd cfg names s o n).1 := by
+    intro o n hn
+    unfold tryAdd
+    split
+    · exact h
+    · split
+      · exact h
+      · split
+        · exact h
+        · split
+          · exact h
+          · rename_i hal; exact coh'_addCore h hn (by simpa using hal)
+  cases op with
+  | setattr key v =>
+    cases v with
+    | other => exact h
+    | hdl o => exact tryAdd' o key (hop key (by simp [Op.names]))
+  | add v name =>
+    cases v with
+    | other => exact h
+    | hdl o =>
+      unfold step; simp only []
+      cases name with
+      | none =>
+        cases hnm : s.nameOf o.id with
+        | none => simp only []; exact h
+        | some n => simp only []; exact tryAdd' o n (hnamed _ _ hnm)
+      | some n =>
+        cases hnm : s.nameOf o.id with
+        | none => simp only []; exact tryAdd' o n (hop n (by simp [Op.names]))
+        | some _ => simp only []; exact h
+  | get n => exact h
+  | getattr n =>
+    unfold step; simp only []
+    split
+    · exact h
+    · split <;> exact h
+  | delattr n => exact h
+  | elaborate => exact ⟨h.views, h.inj, h.dom⟩
+  | steal v k =>
+    cases v with
+    | other => exact h
+    | hdl o => exact ⟨h.views, h.inj, h.dom⟩
 
 /-- Refinement to a plain map: `get` returns the namespace entry, a successful
     `setattr`/`add` binds exactly that name to exactly that object and changes no other
